@@ -10,54 +10,18 @@ import (
 	"nvharness/lib/gofacts"
 )
 
-// Whole canonical bodies (see canonBody) the hand-written model was written against; a function may have several
-// accepted texts (behaviour-preserving variants that were reviewed). Anything else — an inserted, removed or changed
-// statement anywhere in a pinned function — makes fact `wholeBodies` false and breaks the tie. Refresh with
-// `c01 canon <repo>` only after re-reading the model.
-var expectedBodies = map[string][]string{
-	".newWeighted":           {"{ _v0 := &Weighted{size: _p0} return _v0 }", "{ return &Weighted{size: _p0} }"},
-	"Weighted.acquire":       {"{ if _r.size-_r.cur >= _p2 && _r.waiters.Len() == 0 { _r.cur += _p2 _p1.Unlock() return nil } if _p2 > _r.size { _p1.Unlock() <-_p0.Done() return _p0.Err() } _v0 := make(chan struct{}) _v1 := waiter{n: _p2, ready: _v0} _v2 := _r.waiters.PushBack(_v1) _p1.Unlock() select { case <-_p0.Done(): _v3 := _p0.Err() _p1.Lock() select { case <-_v0: _v3 = nil default: _v4 := _r.waiters.Front() == _v2 _r.waiters.Remove(_v2) if _v4 && _r.size > _r.cur { _r.notifyWaiters() } } _p1.Unlock() return _v3 case <-_v0: return nil } }"},
-	"Weighted.release":       {"{ _r.cur -= _p0 if _r.cur < 0 { panic(\"semaphore: released more than held\") } return _r.notifyWaiters() }"},
-	"Weighted.notifyWaiters": {"{ for { _v0 := _r.waiters.Front() if _v0 == nil { return true } _v1 := _v0.Value.(waiter) if _r.size-_r.cur < _v1.n { break } _r.cur += _v1.n _r.waiters.Remove(_v0) close(_v1.ready) } return false }"},
-	".NewSemMap":             {"{ var _v0 = RangeOption(_p0...) return newSemMap(_v0.rwRatio) }"},
-	".newSemMap":             {"{ var _v0 = &SemMap{} _v0.mux = &sync.Mutex{} _v0.m = make(map[interface{}]*Weighted) _v0.rwRatio = _p0 return _v0 }"},
-	"SemMap.AcquireRead":     {"{ return _r.acquire(_p0, _p1, 1) }"},
-	"SemMap.ReleaseRead":     {"{ _r.release(_p0, _p1, 1) }"},
-	"SemMap.AcquireWrite":    {"{ return _r.acquire(_p0, _p1, _r.rwRatio) }"},
-	"SemMap.ReleaseWrite":    {"{ _r.release(_p0, _p1, _r.rwRatio) }"},
-	"SemMap.acquire": {
-		"{ var _v0 error _r.mux.Lock() var _v1, _v2 = _r.m[_p1] if _v2 { _v0 = _v1.acquire(_p0, _r.mux, _p2) if _v0 != nil { return nil, _v0 } return _v1, nil } _v1 = newWeighted(_r.rwRatio) _r.m[_p1] = _v1 _v0 = _v1.acquire(_p0, _r.mux, _p2) if _v0 != nil { return nil, _v0 } return _v1, nil }",
-		// the two branches merged (reviewed: same behaviour)
-		"{ var _v0 error _r.mux.Lock() var _v1, _v2 = _r.m[_p1] if !_v2 { _v1 = newWeighted(_r.rwRatio) _r.m[_p1] = _v1 } _v0 = _v1.acquire(_p0, _r.mux, _p2) if _v0 != nil { return nil, _v0 } return _v1, nil }",
-	},
-	// SemMap.release: prefix + one of the guard forms below (see extract)
-	".NewWideSemMap":          {"{ var _v0 = RangeOption(_p0...) return newWideSemMap(_v0.rwRatio, _v0.prime, false) }"},
-	".NewWideXHashSemMap":     {"{ var _v0 = RangeOption(_p0...) return newWideSemMap(_v0.rwRatio, _v0.prime, true) }"},
-	".newWideSemMap":          {"{ var _v0 = &WideSemMap{} if _p1 > 0 { _v0.rehash = remap.NewReMap(remap.WithPrime(_p1)) } else { _v0.rehash = remap.NewReMap() } var _v1 = _v0.rehash.Numbs() _v0.ms = make([]*SemMap, _v1) for _v2 := uint64(0); _v2 < _v1; _v2++ { _v0.ms[_v2] = newSemMap(_p0) } if _p2 { _v0.calKeyFn = _v0.rehash.XHashIndex } else { _v0.calKeyFn = _v0.rehash.SimpleIndex } return _v0 }"},
-	"WideSemMap.AcquireRead":  {"{ return _r.calculateKey(_p1).AcquireRead(_p0, _p1) }"},
-	"WideSemMap.ReleaseRead":  {"{ _r.calculateKey(_p0).ReleaseRead(_p0, _p1) }"},
-	"WideSemMap.AcquireWrite": {"{ return _r.calculateKey(_p1).AcquireWrite(_p0, _p1) }"},
-	"WideSemMap.ReleaseWrite": {"{ _r.calculateKey(_p0).ReleaseWrite(_p0, _p1) }"},
-	"WideSemMap.calculateKey": {"{ var _v0 = _r.calKeyFn(_p0) return _r.ms[_v0] }"},
-	".RangeOption":            {"{ var _v0 = &_Option{ rwRatio: DefaultRWRatio, } for _, _v1 := range _p0 { _v1(_v0) } return _v0 }"},
-	".WithRwRatio":            {"{ return func(_v0 *_Option) { _v0.rwRatio = _p0 } }"},
-	".WithPrime":              {"{ return func(_v0 *_Option) { _v0.prime = _p0 } }"},
-}
-
-const releasePrefix = "{ _r.mux.Lock() defer _r.mux.Unlock() var _v0 = _p1.release(_p2) "
-
 // guard forms of SemMap.release (canonical text after releasePrefix) -> Cfg.guard.
-// `_p1.cur <= 0` counts as emptyAndIdle only together with fact releaseSubtracts: Weighted.release panics below 0,
+// `w.cur <= 0` counts as emptyAndIdle only together with fact releaseSubtracts: Weighted.release panics below 0,
 // so `cur <= 0` and `cur == 0` are the same test.
 var releaseGuards = map[string]string{
-	"if _v0 { delete(_r.m, _p0) return } }":                 "emptyOnly",
-	"if _v0 { delete(_r.m, _p0) } }":                        "emptyOnly",
-	"if _v0 && _p1.cur == 0 { delete(_r.m, _p0) return } }": "emptyAndIdle",
-	"if _v0 && _p1.cur == 0 { delete(_r.m, _p0) } }":        "emptyAndIdle",
-	"if _p1.cur == 0 && _v0 { delete(_r.m, _p0) return } }": "emptyAndIdle",
-	"if _p1.cur == 0 && _v0 { delete(_r.m, _p0) } }":        "emptyAndIdle",
-	"if _v0 && _p1.cur <= 0 { delete(_r.m, _p0) return } }": "emptyAndIdle",
-	"if _v0 && _p1.cur <= 0 { delete(_r.m, _p0) } }":        "emptyAndIdle",
+	"if v5 { delete ( v1 . m , v2 ) ; return ; } ; } ;":                  "emptyOnly",
+	"if v5 { delete ( v1 . m , v2 ) ; } ; } ;":                           "emptyOnly",
+	"if v5 && v3 . cur == 0 { delete ( v1 . m , v2 ) ; return ; } ; } ;": "emptyAndIdle",
+	"if v5 && v3 . cur == 0 { delete ( v1 . m , v2 ) ; } ; } ;":          "emptyAndIdle",
+	"if v3 . cur == 0 && v5 { delete ( v1 . m , v2 ) ; return ; } ; } ;": "emptyAndIdle",
+	"if v3 . cur == 0 && v5 { delete ( v1 . m , v2 ) ; } ; } ;":          "emptyAndIdle",
+	"if v5 && v3 . cur <= 0 { delete ( v1 . m , v2 ) ; return ; } ; } ;": "emptyAndIdle",
+	"if v5 && v3 . cur <= 0 { delete ( v1 . m , v2 ) ; } ; } ;":          "emptyAndIdle",
 }
 
 func oneOf(s string, alts []string) bool {
@@ -111,17 +75,17 @@ func extract(repo, leanDir string) {
 
 	// ---- the individual facts: fragments of the canonical text, so that a deviation is named where possible
 	macq, wacq := canon["SemMap.acquire"], canon["Weighted.acquire"]
-	acquireLocksFirst := gofacts.Before(macq, "_r.mux.Lock()", "_r.m[_p1]") && !gofacts.Has(macq, "Unlock") &&
-		strings.Count(macq, "_r.mux.Lock()") == 1 && !gofacts.Has(macq, "go ")
+	acquireLocksFirst := gofacts.Before(macq, "v1 . mux . Lock ( ) ;", "v1 . m [ v3 ]") && !gofacts.Has(macq, "Unlock") &&
+		strings.Count(macq, "v1 . mux . Lock ( )") == 1 && !gofacts.Has(macq, " go ")
 	createsUnderLock := is("SemMap.acquire") && is(".newWeighted") && is(".newSemMap")
-	fast := strings.HasPrefix(wacq, "{ if _r.size-_r.cur >= _p2 && _r.waiters.Len() == 0 { _r.cur += _p2 _p1.Unlock() return nil } if _p2 > _r.size {")
-	doomed := gofacts.Before(wacq, "if _p2 > _r.size { _p1.Unlock() <-_p0.Done() return _p0.Err() } _v0 := make(chan struct{})", "_r.waiters.PushBack(")
-	enqueue := gofacts.Has(wacq, "_v0 := make(chan struct{}) _v1 := waiter{n: _p2, ready: _v0} _v2 := _r.waiters.PushBack(_v1) _p1.Unlock() select {") &&
+	fast := gofacts.Has(wacq, ") error { if v1 . size - v1 . cur >= v4 && v1 . waiters . Len ( ) == 0 { v1 . cur += v4 ; v3 . Unlock ( ) ; return nil ; } ; if v4 > v1 . size {")
+	doomed := gofacts.Before(wacq, "if v4 > v1 . size { v3 . Unlock ( ) ; <- v2 . Done ( ) ; return v2 . Err ( ) ; } ; v5 := make ( chan struct { } ) ;", "v1 . waiters . PushBack (")
+	enqueue := gofacts.Has(wacq, "v5 := make ( chan struct { } ) ; v6 := waiter { v4 : v4 , v5 : v5 } ; v7 := v1 . waiters . PushBack ( v6 ) ; v3 . Unlock ( ) ; select {") &&
 		!gofacts.Has(wacq, "PushFront")
-	cancelRelocks := gofacts.Has(wacq, "case <-_p0.Done(): _v3 := _p0.Err() _p1.Lock() select {") &&
-		strings.HasSuffix(wacq, "} _p1.Unlock() return _v3 case <-_v0: return nil } }")
-	prefersReady := gofacts.Has(wacq, "_p1.Lock() select { case <-_v0: _v3 = nil default:")
-	renotify := gofacts.Has(wacq, "default: _v4 := _r.waiters.Front() == _v2 _r.waiters.Remove(_v2) if _v4 && _r.size > _r.cur { _r.notifyWaiters() } } _p1.Unlock()")
+	cancelRelocks := gofacts.Has(wacq, "case <- v2 . Done ( ) : v8 := v2 . Err ( ) ; v3 . Lock ( ) ; select {") &&
+		strings.HasSuffix(wacq, "} ; v3 . Unlock ( ) ; return v8 ; case <- v5 : return nil ; } ; } ;")
+	prefersReady := gofacts.Has(wacq, "v3 . Lock ( ) ; select { case <- v5 : v8 = nil ; default :")
+	renotify := gofacts.Has(wacq, "default : v9 := v1 . waiters . Front ( ) == v7 ; v1 . waiters . Remove ( v7 ) ; if v9 && v1 . size > v1 . cur { v1 . notifyWaiters ( ) ; } ; } ; v3 . Unlock ( ) ;")
 	relSub := is("Weighted.release")
 	headOnly := is("Weighted.notifyWaiters")
 	readOne := is("SemMap.AcquireRead") && is("SemMap.ReleaseRead")
